@@ -39,6 +39,14 @@ func runReplay(path string) int {
 		fmt.Printf("not reproduced: %s %q does not fail on the current tree\n", rp.Inv, rp.Sig)
 		return 0
 	}
+	if head.Engine == "srcsim-cli" {
+		if replayCLI(path) {
+			fmt.Printf("VIOLATION property=%s replay=%s\n  reproduced: %s %q\n", head.Property, path, head.Inv, head.Sig)
+			return 1
+		}
+		fmt.Printf("not reproduced: %s %q does not fail on the current tree\n", head.Inv, head.Sig)
+		return 0
+	}
 	if head.Engine == "ordersim" {
 		bin, err := buildFrontw(true)
 		if err != nil {
